@@ -353,7 +353,14 @@ func init() {
 		Technique: "explicit-state search over the real Map driven in lock-step with a Go map: all 27 contents over 3 insertable keys x 2 values x every operation (all key sequences up to length 2/3), constructors with repeated keys in every position, snapshot-then-mutate histories",
 		Rule:      "state = dump of the map; transition = (state, op) compared with a Go map; unordered views compared as multisets",
 		Assume:    []string{"hashable key types string, int, rune, any; NaN keys excluded"},
-		Budget:    func(string) time.Duration { return 3 * time.Minute },
+		Budget: func(tier string) time.Duration {
+			// the quick search finishes in seconds; the budget only bounds a search whose state space a change of
+			// the library has made unbounded (a private modification counter): reported as not exhaustive
+			if tier == "thorough" {
+				return 15 * time.Minute
+			}
+			return 90 * time.Second
+		},
 		Units:     units,
 	})
 }
